@@ -3,6 +3,6 @@ CONSTANTS
   MinEvents <- McMinEvents
 INIT MCInit
 NEXT MCNext
-INVARIANTS MonitorIsHistory NoRepeatIsDistinctness BitMonitorIsHistory VerdictsAgree
+INVARIANTS MonitorIsHistory NoRepeatIsDistinctness BitMonitorIsHistory VerdictsAgree FamilyIsSubHistories
 PROPERTIES RepeatsNeverForgotten
 CHECK_DEADLOCK FALSE
